@@ -19,7 +19,8 @@ def main():
     from .exec import run_with_big_stack
     try:
         if args.replay:
-            code = run_with_big_stack(mod.replay, args.replay)
+            from .framework import replay_file
+            code = replay_file(pid, args.replay)
         else:
             code = run_with_big_stack(mod.run, tier, seed)
     except SystemExit:
